@@ -45,6 +45,7 @@ def audit_text_laws(seed=0, tier="quick"):
 
     for s in strs:
         r = s.rstrip()
+        ck("splitlines-empty-iff-empty", (len(s.splitlines()) == 0) == (s == ""), s)
         ck("rstrip-prefix", s.startswith(r), s)
         ck("rstrip-idempotent", r.rstrip() == r, s)
         ck("rstrip-newline", (s + "\n").rstrip() == r, s)
